@@ -253,6 +253,15 @@ def walk(node, top=True):
         yield from walk(node["items"], False)
 
 
+def schema_depth(node):
+    t = node_type(node)
+    if t == "object":
+        return 1 + max([schema_depth(sub) for sub in node["properties"].values()] or [0])
+    if t == "array":
+        return 1 + schema_depth(node["items"])
+    return 0
+
+
 def numpy_class(schema):
     """'refused' (documented), 'either' (zero-size components / unnamed field), 'supported'."""
     refused = isinstance(schema["type"], list)
@@ -377,8 +386,10 @@ def gen_scalar(rng):
             if rng.random() < 0.05:
                 fmt = "0" + f"{n}p"
             node = {"type": "string", "binaryFormat": fmt}
-        if rng.random() < 0.08:
-            node["maxLength"] = rng.choice([0, 1, 2, 3, 8])  # JSON-Schema keyword: length in characters
+        if rng.random() < 0.12 and (fmt[-1] == "p" or node.get("nullTerminated")):
+            # JSON-Schema keyword, length in characters (only where the decoded string is never longer than the input,
+            # so that decoded objects still conform: a plain Ns field is NUL-padded on decode)
+            node["maxLength"] = rng.choice([0, 1, 2, 3, 8])
         if rng.random() < 0.4:
             node["stringEncoding"] = rng.choice(ENCODINGS + ["utf-16-le"] + (list(WIDE) if rng.random() < 0.5 else []))
         return node
@@ -484,12 +495,12 @@ def gen_struct_schema(rng):
             schema["required"] = list(schema["required"]) + ["zzlast"]
     r = rng.random()
     forced = None
-    if r < 0.08:
+    if r < 0.035:
         # rare-trigger classes are forced in a fixed share of schemas: an array AT the capacity of a one-byte length
         # prefix (255 elements fit, 256 must be rejected) ...
         forced = {"type": "array", "arrayLengthFormat": "B",
                   "items": {"type": "integer", "binaryFormat": rng.choice("bB")}}
-    elif r < 0.095:
+    elif r < 0.041:
         # ... and a string field larger than 64 KiB (a metadata row that does not fit a 16-bit anything)
         forced = {"type": "string", "binaryFormat": f"{rng.choice([65536, 66000, 70001])}s"}
         if rng.random() < 0.5:
@@ -753,6 +764,7 @@ def invalid_schema(rng, base):
                       "heterogeneous-items", "optional-without-default", "non-boolean-nullTerminated",
                       "non-boolean-exhaust", "non-string-stringEncoding", "non-numeric-index",
                       "null-with-non-pad-format", "properties-not-object", "required-not-string-list",
+                      "non-string-binaryFormat", "non-string-arrayLengthFormat",
                       "unknown-type-name", "json-nested-default", "json-unknown-codec-case", "json-top-level-array"])
     name = rng.choice(["n1", "q9", "a0"])
     arr = {"type": "array", "items": scalar_i()}
@@ -765,6 +777,10 @@ def invalid_schema(rng, base):
         props[name] = {"type": "number", "default": 0,
                        "binaryFormat": rng.choice(["z", "ii", "3i", "", "5", "<i", "2?", "e", "n", "P", "i ", "4h",
                                                    "s5", "-1s", "1.5s", "xs", "D", "F", "u", "10"])}
+    elif cls == "non-string-binaryFormat":
+        props[name] = {"type": "number", "default": 0, "binaryFormat": rng.choice([5, None, ["i"], True, {"f": "i"}])}
+    elif cls == "non-string-arrayLengthFormat":
+        props[name] = dict(arr, arrayLengthFormat=rng.choice([1, None, ["B"], True]), default=[])
     elif cls == "length-with-arrayLengthFormat":
         props[name] = dict(arr, length=2, arrayLengthFormat=rng.choice("BHILQ"), default=[1, 2])
     elif cls == "length-with-exhaust":
@@ -772,7 +788,7 @@ def invalid_schema(rng, base):
     elif cls == "negative-length":
         props[name] = dict(arr, length=rng.choice([-1, -2, -100]), default=[])
     elif cls == "non-integer-length":
-        props[name] = dict(arr, length=rng.choice([1.5, "3", None, [2]]), default=[])
+        props[name] = dict(arr, length=rng.choice([1.5, "3", None, [2], True]), default=[])
     elif cls == "bad-arrayLengthFormat":
         props[name] = dict(arr, arrayLengthFormat=rng.choice(["b", "h", "i", "l", "q", "x", "LL", "", "?", "f", "s",
                                                               "1B", "<B"]), default=[])
@@ -819,8 +835,17 @@ def invalid_schema(rng, base):
         props[name] = {"type": rng.choice(["float", "int", "str", "dict", "Number"]), "binaryFormat": "i",
                        "default": 0}
     elif cls == "json-nested-default":
-        s = {"codec": "json", "type": "object",
-             "properties": {"a": {"type": "object", "properties": {"b": {"type": "number", "default": 5}}}}}
+        inner = {"type": "object", "properties": {"b": {"type": rng.choice(["number", "array", "object"])}}}
+        inner["properties"]["b"]["default"] = {"number": 5, "array": [], "object": {}}[inner["properties"]["b"]["type"]]
+        if rng.random() < 0.4:
+            inner["properties"]["c"] = {"type": "string"}
+        for _ in range(rng.choice([0, 0, 1, 2])):  # "only at the shallowest level": any deeper level is refused
+            inner = {"type": "object", "properties": {rng.choice(["m", "n"]): inner}}
+        s = {"codec": "json", "type": "object", "properties": {"a": inner}}
+        if rng.random() < 0.3:
+            s["required"] = ["a"]
+        if rng.random() < 0.3:
+            del s["type"]
         if rng.random() < 0.5:
             s["properties"]["z"] = {"type": "string", "default": "top-level default is fine"}
     elif cls == "json-unknown-codec-case":
@@ -883,7 +908,7 @@ def gen_json_schema(rng):
             s[k] = copy.deepcopy(ANNOTATIONS[k])
         return s, "permissive", None
     s = {"codec": "json", "type": "object"}
-    if r < 0.22:
+    if r < 0.2:
         # no properties: the schema still constrains objects through other keywords
         kind = rng.choice(["required", "additionalProperties", "type-only", "maxProperties"])
         if kind == "required":
@@ -895,7 +920,7 @@ def gen_json_schema(rng):
         if rng.random() < 0.3:
             s["properties"] = {}
         return s, "no-properties:" + kind, None
-    if r < 0.36:
+    if r < 0.42:
         kind = rng.choice(sorted(KEYWORD_ONLY))
         frag, good, bad = copy.deepcopy(KEYWORD_ONLY[kind])
         s.update(frag)
@@ -973,7 +998,10 @@ def json_norm(o):
 def cases(tier, seed):
     n = 16000 if tier == "quick" else 600000
     for k in range(n):
-        yield {"gen": "json" if k % 5 == 4 else "struct", "k": k}
+        # (97 is coprime to every worker count, so each family reaches every worker)
+        r = (k * 37) % 97
+        gen = "struct" if r < 72 else "json" if r < 91 else "null" if r < 96 else "cap"
+        yield {"gen": gen, "k": k}
 
 
 def construct(schema):
@@ -987,6 +1015,10 @@ def run_case(case, ctx):
     rng = case_rng(case)
     if case["gen"] == "json":
         run_json(case, rng, ctx)
+    elif case["gen"] == "null":
+        run_null(case, rng, ctx)
+    elif case["gen"] == "cap":
+        run_cap(case, rng, ctx)
     else:
         run_struct(case, rng, ctx)
 
@@ -1026,6 +1058,22 @@ def run_struct(case, rng, ctx):
         if t == "array":
             ctx.feature("array:" + ("fixed" if "length" in node else "exhaust"
                         if node.get("noLengthEncodingExhaustBuffer") else "prefix-" + node.get("arrayLengthFormat", "default")))
+            for kw in ("minItems", "maxItems"):
+                if kw in node:
+                    ctx.feature("keyword:" + kw)
+            if node.get("arrayLengthFormat") == "B" and "maxItems" not in node and (fixed_size(node["items"]) or 9) <= 2:
+                ctx.feature("array:one-byte-prefix-small-items")
+        if "binaryFormat" in node:
+            digits = node["binaryFormat"][:-1]
+            if len(digits) > 1 and digits[0] == "0":
+                ctx.feature("fmt:count-with-leading-zero")
+            if digits.isdigit() and int(digits) > 65535:
+                ctx.feature("fmt:field-larger-than-64KiB")
+        for kw in ("enum", "maxLength", "minimum"):
+            if kw in node:
+                ctx.feature("keyword:" + kw)
+        if t == "object" and node.get("properties", {}).get("tail", {}).get("noLengthEncodingExhaustBuffer"):
+            ctx.feature("array:exhaust-in-last-nested-object")
         if "default" in node:
             ctx.feature("default@" + t)
         if node.get("nullTerminated"):
@@ -1036,6 +1084,7 @@ def run_struct(case, rng, ctx):
     ctx.feature("index:mixed" if mixed else "index:determined")
     if isinstance(schema["type"], list):
         ctx.feature("top:object|null")
+    ctx.feature(f"nesting-depth:{schema_depth(schema)}")
 
     # ---------------- string form
     s = repr(ms)
@@ -1137,7 +1186,8 @@ def run_struct(case, rng, ctx):
                 ctx.violation("struct/re-encode",
                               f"encoding the decoded object gives {b2.hex() if b2 is not None else repr(e2)}, "
                               f"documented layout {b_re.hex()} obj={jdump(d)} schema={s}", detail)
-        for how, v in variants:
+        # (the cached re-parse sees every object; the two re-constructions, which share all code with it, the first two)
+        for how, v in (variants if len(good) < 2 else variants[:1]):
             ctx.count("struct/string-form:objects")
             bv, ev = try_encode(v, obj)
             if bv != b:
@@ -1232,6 +1282,21 @@ def scramble(o):
             scramble(v)
 
 
+_OTHERS = []
+
+
+def other_schemas():
+    if not _OTHERS:
+        _OTHERS.extend([
+            ("the null schema", tskit.MetadataSchema(None)),
+            ("permissive_json()", tskit.MetadataSchema.permissive_json()),
+            ("an empty struct schema", tskit.MetadataSchema({"codec": "struct", "type": "object", "properties": {}})),
+            ("a one-field struct schema", tskit.MetadataSchema(
+                {"codec": "struct", "type": "object", "properties": {"zz_eq": {"type": "number", "binaryFormat": "b"}}})),
+        ])
+    return _OTHERS
+
+
 def check_object_api(ctx, rng, ms, schema, pristine, good, s, detail):
     """Alternative argument forms and object-identity questions around one accepted struct schema."""
     # the dict handed out by .schema / .asdict() is the caller's to modify ("one possible use of this is to modify this
@@ -1255,20 +1320,18 @@ def check_object_api(ctx, rng, ms, schema, pristine, good, s, detail):
     except Exception as e:
         ctx.violation("schema/handed-out-dict-aliased", f".schema/.asdict() isolation check raised {type(e).__name__}: "
                                                         f"{str(e)[:200]}; schema={s}", detail)
-    # equality: same schema text -> equal; a schema with one more property -> not equal
+    # equality: same schema text -> equal (checked with the re-parsed variants); any other schema -> not equal
     ctx.count("schema/equality")
     try:
-        same = tskit.MetadataSchema(copy.deepcopy(pristine))
-        other = copy.deepcopy(pristine)
-        other["properties"]["zz_eq"] = {"type": "number", "binaryFormat": "b", "default": 0}
-        other = tskit.MetadataSchema(other)
-        if not (ms == same) or (ms != same) or (ms == other) or not (ms != other):
-            ctx.violation("schema/equality", f"MetadataSchema ==/!= wrong: same->{ms == same}, one more property->"
-                                             f"{ms == other}; schema={s}", detail)
+        for name, other in other_schemas():
+            if repr(other) != s and ((ms == other) or not (ms != other)):
+                ctx.violation("schema/equality", f"MetadataSchema == {name} although the schemas differ; schema={s}", detail)
+        if not (ms == ms) or (ms != ms):
+            ctx.violation("schema/equality", f"MetadataSchema != itself; schema={s}", detail)
     except Exception as e:
         ctx.violation("schema/equality", f"MetadataSchema equality raised {type(e).__name__}: {str(e)[:200]}", detail)
     # a dict subclass with another insertion order is the same object
-    for obj, b, exp, _ in good[:2]:
+    for obj, b, exp, _ in good[:1]:
         if isinstance(obj, dict) and obj:
             ctx.count("struct/arg-form:OrderedDict")
             od = collections.OrderedDict(reversed(list(obj.items())))
@@ -1281,7 +1344,7 @@ def check_object_api(ctx, rng, ms, schema, pristine, good, s, detail):
     # additionalProperties: true written into a struct schema: the docs say additional properties are disallowed under
     # this codec ("must be set to False ... assumed by default"), so the schema may be refused (EITHER), but when it is
     # accepted an object with an extra key must still be rejected and conforming objects keep their bytes
-    if good and rng.random() < 0.25 and isinstance(good[0][0], dict):
+    if good and rng.random() < 0.15 and isinstance(good[0][0], dict):
         loose = copy.deepcopy(pristine)
         nodes = [n for n, _ in walk(loose) if node_type(n) == "object"]
         for n in nodes:
@@ -1983,6 +2046,192 @@ def check_tables(ctx, rng, ms, schema, good, bad_objs, s, detail, codec="struct"
 
         ctx.violation("table/raises", f"{kind} metadata path raised {type(e).__name__}: {str(e)[:200]}; schema={s}",
                       dict(detail, tb=traceback.format_exc()[-1500:]))
+
+
+# ------------------------------------------------------------------------------------------- no schema / capacity
+
+
+def run_null(case, rng, ctx):
+    """The null schema (MetadataSchema(None) / MetadataSchema.null() / the empty string form): metadata is raw bytes,
+    stored and returned verbatim; anything that is not bytes is refused ("If no encoding is set metadata should be
+    bytes")."""
+    forms = [("MetadataSchema(None)", lambda: tskit.MetadataSchema(None)),
+             ("MetadataSchema.null()", tskit.MetadataSchema.null),
+             ("parse_metadata_schema('')", lambda: tsk_metadata.parse_metadata_schema(""))]
+    how, f = forms[case["k"] % 3]
+    ctx.feature("null-schema:" + how)
+    detail = {"schema": None, "form": how}
+    try:
+        ms = f()
+    except Exception as e:
+        ctx.violation("null-schema/construct", f"{how} raised {type(e).__name__}: {e}", detail)
+        return
+    values = [b"", b"\x00", bytes(rng.randrange(256) for _ in range(rng.choice([1, 2, 7, 40]))), b"{}", b"null",
+              "é€".encode(), bytes(range(256)), b"ab" * rng.choice([3, 40000])]
+    rng.shuffle(values)
+    values = values[:rng.choice([3, 4, 5])]
+    ctx.sig((how, [v[:64].hex() for v in values], [len(v) for v in values]), nontrivial=True)
+    ctx.count("null-schema/roundtrip")
+    try:
+        if repr(ms) != "" or ms.schema is not None or ms.asdict() is not None or not (ms == tskit.MetadataSchema(None)) \
+                or ms == tskit.MetadataSchema.permissive_json():
+            ctx.violation("null-schema/string-form", f"{how}: repr={repr(ms)!r} schema={ms.schema!r}; expected '' / None / "
+                                                     f"equal to the null schema only", detail)
+        str(ms)
+        for v in values:
+            b = ms.validate_and_encode_row(v)
+            if b != v or ms.encode_row(v) != v or ms.decode_row(v) != v or type(ms.decode_row(v)) is not bytes:
+                ctx.violation("null-schema/roundtrip", f"{how}: {v[:40]!r} encodes as {b!r:.80} / decodes as "
+                                                       f"{ms.decode_row(v)!r:.80}", detail)
+    except Exception as e:
+        ctx.violation("null-schema/roundtrip", f"{how}: raw bytes raised {type(e).__name__}: {str(e)[:200]}", detail)
+    bad = [("str", "ab"), ("dict", {}), ("dict", {"a": 1}), ("int", 5), ("list", [1]), ("float", 1.5), ("bool", True)]
+    for cls, v in bad:
+        ctx.count("null-schema/non-bytes-rejected")
+        _, e = try_encode(ms, v)
+        if e is None:
+            ctx.violation(f"null-schema/non-bytes-accepted/{cls}", f"{how}.validate_and_encode_row({v!r}) did not raise",
+                          detail)
+    # containers
+    kind = KINDS[(case["k"] // 3) % len(KINDS)]
+    ctx.feature("container:" + kind)
+    n = len(values)
+    try:
+        if kind in ("top", "refseq"):
+            tc = tskit.TableCollection(1)
+            holder = tc if kind == "top" else tc.reference_sequence
+            holder.metadata_schema = ms
+            for v in values:
+                ctx.count("null-schema/container")
+                holder.metadata = v
+                if holder.metadata_bytes != v or holder.metadata != v:
+                    ctx.violation("null-schema/container", f"{kind}.metadata = {v[:40]!r} reads back as "
+                                                           f"{holder.metadata!r:.80}", detail)
+            for cls, v in bad[:4]:
+                try:
+                    holder.metadata = v
+                    ctx.violation(f"null-schema/non-bytes-accepted/{cls}", f"{kind}.metadata = {v!r} accepted", detail)
+                except Exception:
+                    pass
+            if holder.metadata_bytes != values[-1] or repr(holder.metadata_schema) != "":
+                ctx.violation("null-schema/container", f"{kind} metadata changed by a rejected assignment", detail)
+            if kind == "refseq":
+                tc.reference_sequence.data = "A"
+            ts = tc.tree_sequence()
+            h2 = ts if kind == "top" else ts.reference_sequence
+            if h2.metadata != values[-1] or repr(h2.metadata_schema) != "":
+                ctx.violation("null-schema/container", f"TreeSequence {kind} metadata = {h2.metadata!r:.80}", detail)
+            return
+        tc = skeleton(kind, 2 * n + 2)
+        table = getattr(tc, kind)
+        if case["k"] % 2:
+            table.metadata_schema = ms
+        for j, v in enumerate(values):
+            add_row_to(tc, kind, j, metadata=v)
+        rows = column_rows(table)
+        for j, v in enumerate(values):
+            ctx.count("null-schema/container")
+            if rows[j] != v or table[j].metadata != v or type(table[j].metadata) is not bytes:
+                ctx.violation("null-schema/container", f"{kind}.add_row(metadata={v[:40]!r}) reads back as "
+                                                       f"{table[j].metadata!r:.80}", detail)
+        before = (table.num_rows, np.asarray(table.metadata).tobytes(), table.metadata_offset.tobytes())
+        for cls, v in bad[:5]:
+            for op in ("add_row", "setitem"):
+                ctx.count("null-schema/non-bytes-rejected")
+                try:
+                    if op == "add_row":
+                        add_row_to(tc, kind, n, metadata=v)
+                    else:
+                        table[0] = table[0].replace(metadata=v)
+                    ctx.violation(f"null-schema/non-bytes-accepted/{cls}", f"{kind}.{op} accepted metadata={v!r}", detail)
+                    return
+                except Exception:
+                    pass
+        if before != (table.num_rows, np.asarray(table.metadata).tobytes(), table.metadata_offset.tobytes()):
+            ctx.violation("null-schema/container", f"{kind} changed by rejected non-bytes metadata", detail)
+        add_row_to(tc, kind, n)  # no metadata given: empty
+        table[0] = table[0].replace(metadata=values[-1])
+        rows = column_rows(table)
+        if rows[n] != b"" or rows[0] != values[-1]:
+            ctx.violation("null-schema/container", f"{kind}: add_row() stored {rows[n]!r:.60}, [0]=... stored "
+                                                   f"{rows[0]!r:.60}", detail)
+        ts = tc.tree_sequence()
+        sing = {"nodes": ts.node, "edges": ts.edge, "sites": ts.site, "mutations": ts.mutation,
+                "individuals": ts.individual, "populations": ts.population, "migrations": ts.migration}[kind]
+        for j in range(1, n):
+            if sing(j).metadata != values[j]:
+                ctx.violation("null-schema/container", f"ts.{kind[:-1]}({j}).metadata = {sing(j).metadata!r:.80} "
+                                                       f"expected {values[j]!r:.80}", detail)
+        if repr(getattr(ts.table_metadata_schemas, kind[:-1])) != "":
+            ctx.violation("null-schema/container", f"ts.table_metadata_schemas.{kind[:-1]} is not the null schema", detail)
+    except Exception as e:
+        ctx.violation("null-schema/raises", f"{kind} with the null schema raised {type(e).__name__}: {str(e)[:200]}",
+                      detail)
+
+
+def run_cap(case, rng, ctx):
+    """Arrays exactly at / one above the capacity of a two-byte length prefix (65535 fit, 65536 must be refused), and the
+    same boundary for one byte; kept out of the table paths because of their size."""
+    fmt = "H" if (case["k"] // 97) % 12 == 0 else "B"  # (the two-byte boundary costs ~2 s: one in 1164 cases)
+    cap = 65535 if fmt == "H" else 255
+    item = rng.choice([{"type": "integer", "binaryFormat": "B"}, {"type": "integer", "binaryFormat": "b"},
+                       {"type": "boolean", "binaryFormat": "?"}, {"type": "string", "binaryFormat": "c"},
+                       {"type": "null", "binaryFormat": "x"}, {"type": "string", "binaryFormat": "1s"}])
+    schema = {"codec": "struct", "type": "object",
+              "properties": {"n": {"type": "integer", "binaryFormat": "H"},
+                             "v": {"type": "array", "arrayLengthFormat": fmt, "items": item}}}
+    if rng.random() < 0.5:
+        schema["properties"]["n"]["index"] = 5  # the array comes first then
+        schema["properties"]["v"]["index"] = 1
+    first = "v" if "index" in schema["properties"]["v"] else "n"
+    ms, err = construct(schema)
+    s = jdump(schema)
+    detail = {"schema": schema}
+    ctx.feature("cap:prefix-" + fmt)
+    ctx.sig((s, case["k"]), nontrivial=ms is not None)
+    if ms is None:
+        ctx.violation("schema/valid-rejected", f"MetadataSchema rejected {s}: {err!r:.200}", detail)
+        return
+
+    def element():
+        c = item["binaryFormat"][-1]
+        return {"B": rng.randrange(256), "b": rng.randrange(-128, 128), "?": rng.random() < 0.5,
+                "c": rng.choice("abz"), "x": None, "s": rng.choice("abz")}[c]
+
+    def ref_item(x):
+        return enc_scalar(item, x)
+
+    for length in ((cap - 1, cap, 0) if fmt == "B" else (cap,)):
+        v = [element() for _ in range(length)]
+        obj = {"n": 513, "v": v}
+        ctx.count("struct/array-at-prefix-capacity")
+        size = LEN[fmt]
+        arr = length.to_bytes(size, "little") + b"".join(ref_item(x) for x in v)
+        want = arr + b"\x01\x02" if first == "v" else b"\x01\x02" + arr
+        b, e = try_encode(ms, obj)
+        if b != want:
+            ctx.violation("struct/layout", f"array of {length} elements with prefix {fmt}: encoded "
+                                           f"{(b[:24].hex() + '...') if b is not None else repr(e)[:200]} "
+                                           f"({len(b) if b is not None else '-'} bytes), documented layout "
+                                           f"{want[:24].hex()}... ({len(want)} bytes); schema={s}", detail)
+            continue
+        try:
+            d = ms.decode_row(b)
+        except Exception as e2:
+            ctx.violation("struct/decode-raises", f"decode_row raised {type(e2).__name__}: {str(e2)[:200]} for an array of "
+                                                  f"{length} elements with prefix {fmt}; schema={s}", detail)
+            continue
+        if not deep_eq(d, {"n": 513, "v": [expected(item, x) for x in v]}):
+            ctx.violation("struct/roundtrip", f"array of {length} elements with prefix {fmt} does not round trip "
+                                              f"(decoded length {len(d.get('v', []))}); schema={s}", detail)
+    for length in ((cap + 1, cap + 2) if fmt == "B" else (cap + 1,)):
+        ctx.count("struct/nonconforming-rejected")
+        ctx.feature("bad:array-exceeds-length-prefix")
+        b, e = try_encode(ms, {"n": 513, "v": [element() for _ in range(length)]})
+        if e is None:
+            ctx.violation("struct/nonconforming-accepted/array-exceeds-length-prefix",
+                          f"validate_and_encode_row accepted an array of {length} elements under a {fmt} length prefix "
+                          f"(capacity {cap}) -> {len(b)} bytes starting {b[:8].hex()}; schema={s}", detail)
 
 
 # ------------------------------------------------------------------------------------------- JSON codec
